@@ -4,9 +4,9 @@
 (* schedule and cancel events, must be behaviours of RunListeners.tla.       *)
 EXTENDS TraceBatch
 CONSTANTS EndT, WarmT, MaxEv, Delays, Prios, Bounds, StampLag
-VARIABLES clock, ev, pending, run, bound, incl, win, about, lastTs, ended, executed, op
+VARIABLES clock, ev, pending, run, bound, incl, win, about, lastTs, ended, step, executed, op
 RL == INSTANCE RunListeners
-rlvars == <<clock, ev, pending, run, bound, incl, win, about, lastTs, ended, executed, op>>
+rlvars == <<clock, ev, pending, run, bound, incl, win, about, lastTs, ended, step, executed, op>>
 TraceInit == BatchInit /\ RL!Init
 Step ==
   /\ Live /\ Consume
@@ -16,7 +16,8 @@ Step ==
      \/ e.a = "Start" /\ RL!StartSeg(e.b, e.inc) /\ op'.ts = e.ts
      \/ e.a = "TC" /\ RL!Announce /\ op'.ts = e.ts
      \/ e.a = "Exec" /\ RL!Exec /\ op'.id = e.id /\ op'.clk = e.clk
-     \/ e.a = "Stop" /\ RL!SegEnd /\ op'.ts = e.ts
+     \/ e.a = "StepStart" /\ RL!StepSeg /\ op'.ts = e.ts
+     \/ e.a = "Stop" /\ (RL!SegEnd \/ RL!StepEnd) /\ op'.ts = e.ts
 TraceSpec == TraceInit /\ [][Step]_<<tid, l, rlvars>>
 InvNothingInThePast == RL!NothingInThePast
 InvStampIsNow == RL!StampIsNow
@@ -24,4 +25,5 @@ InvExactlyOnce == RL!ExactlyOnce
 InvSegmentComplete == RL!SegmentComplete
 PropClockMonotone == RL!ClockMonotone
 PropStampsMonotone == RL!StampsMonotone
+PropStepIsOneEvent == RL!StepIsOneEvent
 =============================================================================
